@@ -46,5 +46,8 @@ func newContext(conn internalConn) *context {
 
 // Conn returns a connection context.
 func (c *context) Conn() ConnContext {
+	if c.conn == nil {
+		return closedConnContext // the closed context has no connection
+	}
 	return c.conn.Context()
 }
